@@ -77,12 +77,19 @@ def main():
         dst = os.path.join(HERE, "seeded", a.name)
         os.makedirs(dst, exist_ok=True)
         for f, g in ((a.patch, "patch.diff"), (a.demo, "demo.py"), ("NOTES.md", "NOTES.md")):
-            if os.path.exists(os.path.join(a.src, f)):
+            if os.path.exists(os.path.join(a.src, f)) and os.path.abspath(os.path.join(a.src, f)) != os.path.abspath(os.path.join(dst, g)):
                 shutil.copy(os.path.join(a.src, f), os.path.join(dst, g))
         old = {}
         mp = os.path.join(dst, "meta.json")
         if os.path.exists(mp):
             old = json.load(open(mp))
+        if "check_results" in old and "first_run" not in old:
+            old["first_run"] = {k: v["verdict"] for k, v in old["check_results"].items()}  # before any strengthening
+        if a.skip_confirm and "check_results" in old:
+            merged = dict(old["check_results"])
+            merged.update(meta["check_results"])
+            meta["check_results"] = merged
+            meta["ran"] = list(old.get("ran", [])) + meta["ran"]
         old.update(meta)
         json.dump(old, open(mp, "w"), indent=1)
         return 0
